@@ -30,6 +30,7 @@ import (
 	"github.com/versity/versitygw/auth"
 	"github.com/versity/versitygw/backend"
 	"github.com/versity/versitygw/s3err"
+	"github.com/versity/versitygw/verifhook"
 	"golang.org/x/sys/unix"
 )
 
@@ -164,11 +165,13 @@ func (tmp *tmpfile) link() error {
 	// temp file into place for the object. This ensures the object semantics
 	// of last upload completed wins and is not some combination of writes
 	// from simultaneous uploads.
+	verifhook.At("link.begin", "bucket", tmp.bucket, "obj", tmp.objname)
 	objPath := filepath.Join(tmp.bucket, tmp.objname)
 	err := os.Remove(objPath)
 	if err != nil && !errors.Is(err, fs.ErrNotExist) {
 		return fmt.Errorf("remove stale path: %w", err)
 	}
+	verifhook.At("link.removed", "path", objPath)
 
 	dir := filepath.Dir(objPath)
 
@@ -194,10 +197,12 @@ func (tmp *tmpfile) link() error {
 	}
 	defer dirf.Close()
 
+	verifhook.At("link.prelink", "path", objPath)
 	for {
 		err = unix.Linkat(int(procdir.Fd()), filepath.Base(tmp.f.Name()),
 			int(dirf.Fd()), filepath.Base(objPath), unix.AT_SYMLINK_FOLLOW)
 		if errors.Is(err, syscall.EEXIST) {
+			verifhook.At("link.eexist", "path", objPath)
 			err := os.Remove(objPath)
 			if err != nil && !errors.Is(err, fs.ErrNotExist) {
 				return fmt.Errorf("remove stale path: %w", err)
@@ -210,6 +215,7 @@ func (tmp *tmpfile) link() error {
 		}
 		break
 	}
+	verifhook.At("link.linked", "path", objPath)
 
 	err = tmp.f.Close()
 	if err != nil {
@@ -234,12 +240,14 @@ func (tmp *tmpfile) fallbackLink() error {
 	}
 
 	objPath := filepath.Join(tmp.bucket, tmp.objname)
+	verifhook.At("link.prerename", "path", objPath)
 	err = os.Rename(tempname, objPath)
 	if err != nil {
 		// rename only works for files within the same filesystem
 		// if this fails fallback to copy
 		return backend.MoveFile(tempname, objPath, fs.FileMode(defaultFilePerm))
 	}
+	verifhook.At("link.renamed", "path", objPath)
 
 	return nil
 }
